@@ -5,6 +5,7 @@ import (
 	"encoding/json"
 	"fmt"
 	"sort"
+	"strconv"
 	"strings"
 	"time"
 
@@ -226,10 +227,11 @@ type world struct {
 	desc []string // human-readable script, for samples/replays
 	// stats
 	conflict bool
-	cur      string // kind of the event being executed
+	cur      string                  // kind of the event being executed
+	broken   bool                    // a replica left the log discipline (end of history)
 	seenGone map[int]map[string]bool // C04: per replica, tags that were readable and then were not
 	present  map[int]map[string]bool
-	order    map[[2]string]bool       // C04: relative order of two tags, wherever both were readable
+	order    map[[2]string]bool // C04: relative order of two tags, wherever both were readable
 }
 
 func newWorld(c *Ctx, kind string, n int) *world {
@@ -361,6 +363,143 @@ func (w *world) checkElements() {
 		}
 	}
 	w.c.Count("element-observations")
+}
+
+// ---------- snapshots (C10) ----------
+
+func gOptVal(v interface{}) string {
+	if v == nil {
+		return "None"
+	}
+	return gSome(gVal(v))
+}
+
+func gTsJSON(m map[string]interface{}) string {
+	u := func(k string) uint64 {
+		if n, ok := m[k].(json.Number); ok {
+			x, _ := strconv.ParseUint(n.String(), 10, 64)
+			return x
+		}
+		return 0
+	}
+	c, _ := m["c"].(string)
+	return fmt.Sprintf("(mkTs %s %s %s %s)", gN(u("e")), gN(u("l")), gStr(c), gN(u("d")))
+}
+
+// gSnapshot renders the bytes of json.Marshal(snapshot) as a Gallina [jsnap]
+func gSnapshot(kind string, snap []byte) string {
+	dec := json.NewDecoder(bytes.NewReader(snap))
+	dec.UseNumber()
+	var x map[string]interface{}
+	if err := dec.Decode(&x); err != nil {
+		panic(err)
+	}
+	num := func(v interface{}) string {
+		n, _ := v.(json.Number)
+		z, _ := strconv.ParseInt(n.String(), 10, 64)
+		return gZ(z)
+	}
+	tsOf := func(v interface{}) string {
+		m, _ := v.(map[string]interface{})
+		if m == nil {
+			m = map[string]interface{}{}
+		}
+		return gTsJSON(m)
+	}
+	switch kind {
+	case "counter":
+		return "(JCounter " + num(x["Counter"]) + ")"
+	case "map":
+		mm, _ := x["Map"].(map[string]interface{})
+		keys := make([]string, 0, len(mm))
+		for k := range mm {
+			keys = append(keys, k)
+		}
+		sort.Strings(keys)
+		items := []string{}
+		for _, k := range keys {
+			e, _ := mm[k].(map[string]interface{})
+			items = append(items, fmt.Sprintf("(%s, (%s, %s))", gStr(k), gOptValParsed(e["v"]), tsOf(e["t"])))
+		}
+		return fmt.Sprintf("(JMap %s %s)", gList(items), num(x["Size"]))
+	}
+	nodes, _ := x["Nodes"].([]interface{})
+	items := []string{}
+	for _, n := range nodes {
+		e, _ := n.(map[string]interface{})
+		items = append(items, fmt.Sprintf("(%s, %s, %s)", gOptValParsed(e["V"]), tsOf(e["T"]), tsOf(e["O"])))
+	}
+	return fmt.Sprintf("(JList %s %s)", gList(items), num(x["Size"]))
+}
+
+func gOptValParsed(v interface{}) string {
+	if v == nil {
+		return "None"
+	}
+	return gSome(gValParsed(v))
+}
+
+// snapshotCheck: export meta+snapshot of replica r, record it for the model, import it into a fresh
+// object and run original and restored side by side on a continuation (C10 oracle)
+func (w *world) snapshotCheck(ri int) {
+	r := w.reps[ri]
+	meta, snap, err := r.dt.GetMetaAndSnapshot()
+	if err != nil {
+		w.c.Violate("C10", "export-failed", fmt.Sprint(err), w.desc)
+		return
+	}
+	var m struct {
+		OpID *model.OperationID `json:"opID"`
+	}
+	_ = json.Unmarshal(meta, &m)
+	if m.OpID == nil {
+		m.OpID = &model.OperationID{}
+	}
+	w.evs = append(w.evs, fmt.Sprintf("ESnap %s %s %s", gNat(ri), gSnapshot(w.kind, snap), gOpid(m.OpID)))
+	w.desc = append(w.desc, fmt.Sprintf("snapshot r%d", ri))
+	w.c.Count("ev-snapshot")
+	// restore into a fresh object
+	fresh := newReplica(100+ri, w.kind, true)
+	if err := fresh.dt.SetMetaAndSnapshot(meta, snap); err != nil {
+		w.c.Violate("C10", "import-failed", fmt.Sprint(err), w.desc)
+		return
+	}
+	if fresh.viewJSON() != r.viewJSON() {
+		w.c.Violate("C10", "restored-view-differs-"+w.kind, fmt.Sprintf("%s: original reads %s, restored %s", w.kind, r.viewJSON(), fresh.viewJSON()), w.desc)
+	}
+	_, snap2, _ := fresh.dt.GetMetaAndSnapshot()
+	if gSnapshot(w.kind, snap2) != gSnapshot(w.kind, snap) {
+		w.c.Violate("C10", "reexport-differs-"+w.kind, fmt.Sprintf("%s: exporting the restored instance gives %s instead of %s", w.kind, string(snap2), string(snap)), w.desc)
+	}
+	// continuation on a CLONE of the original (restored from the same bytes into another object would hide
+	// a defective export; so the original itself continues) and on the restored instance: the same remote
+	// operations, addressed at everything the snapshot contains
+	other := w.reps[(ri+1)%len(w.reps)]
+	var cont []*model.Operation
+	before := len(other.pendingOps())
+	for k := 0; k < 6; k++ {
+		cs := w.rndCall(other)
+		_, _ = cs.run(other)
+	}
+	cont = other.pendingOps()[before:]
+	// deliver other's continuation to both (as whole units)
+	if len(cont) > 0 {
+		_, e1 := r.dt.ReceiveRemoteModelOperations(cont, false)
+		_, e2 := fresh.dt.ReceiveRemoteModelOperations(cont, false)
+		if (e1 == nil) != (e2 == nil) || r.viewJSON() != fresh.viewJSON() {
+			w.c.Violate("C10", "continuation-differs-"+w.kind, fmt.Sprintf("%s: after the same %d remote operations the original reads %s and the restored instance %s", w.kind, len(cont), r.viewJSON(), fresh.viewJSON()), w.desc)
+		}
+		_, s1, _ := r.dt.GetMetaAndSnapshot()
+		_, s2, _ := fresh.dt.GetMetaAndSnapshot()
+		if gSnapshot(w.kind, s1) != gSnapshot(w.kind, s2) {
+			w.c.Violate("C10", "continuation-snapshot-differs-"+w.kind, fmt.Sprintf("%s: after the same remote operations the snapshots differ", w.kind), w.desc)
+		}
+		w.c.Count("continuations-compared")
+	}
+	// the model must follow: r received other's unpushed operations out of band
+	w.evs = append(w.evs, fmt.Sprintf("ERecv %s %s %s %s %s", gNat(ri), gOps(cont), gBool(true), func() string { v, _ := r.view(); return v }(), func() string { _, s := r.view(); return s }()))
+	w.desc = append(w.desc, fmt.Sprintf("r%d and its restored copy receive %d operations of r%d", ri, len(cont), other.idx))
+	w.broken = true // r has applied operations that are not in the log yet: the history ends here
 }
 
 // ---------- events ----------
@@ -876,9 +1015,13 @@ func sliceCrdt(c *Ctx, kind string) {
 			}
 			w.checkConvergence()
 			w.checkElements()
+			if len(w.reps) > 1 {
+				w.cur = "snapshot"
+				w.snapshotCheck(c.Rng.Intn(nrep))
+			}
 		})
 		if p {
-			prop := map[string]string{"local call": "C03", "transaction": "C09", "push": "C15", "delivery": "C01"}[w.cur]
+			prop := map[string]string{"local call": "C03", "transaction": "C09", "push": "C15", "delivery": "C01", "snapshot": "C10"}[w.cur]
 			c.Violate(prop, "panic-in-"+strings.ReplaceAll(w.cur, " ", "-")+"-"+kind, fmt.Sprintf("%s: the implementation panicked during a %s: %s", kind, w.cur, msg), w.desc)
 			c.Count("history-ended-by-panic")
 			continue
@@ -894,5 +1037,5 @@ func sliceCrdt(c *Ctx, kind string) {
 		c.Count(fmt.Sprintf("replicas-%d", nrep))
 	}
 	c.Res.Cases = len(cases)
-	c.WriteCases("Crdt_"+kind, "Base Time Ops Counter Map List Datatype Replicas CheckCrdt", ty, chk, cases, 25)
+	c.WriteCases("Crdt_"+kind, "Base Time Ops Counter Map List Snapshot Datatype Replicas CheckCrdt", ty, chk, cases, 25)
 }
